@@ -4,15 +4,18 @@ import struct
 
 import vlib
 from checks import common, numself
+from checks import c09b
 
 LEVEL = "other"
-HARNESS = {"bzone": ["corecel", "geocel", "orange"], "numself": ["corecel"]}
+HARNESS = {"bzone": ["corecel", "geocel", "orange"], "solids": ["corecel", "geocel", "orange"],
+           "numself": ["corecel"]}
 MANIFEST = {
     "category": "other",
     "technique": "Lean 4 proof of bounding-zone soundness for every bounded linear order (negation, "
                  "4-case intersection, n-ary fold, exterior bbox; union only for equal negation flags "
-                 "+ kernel-checked counter-example for the mixed cases) with bit-exact correspondence "
-                 "to BoundingZone.cc; grid-point soundness oracle on the real code",
+                 "+ kernel-checked counter-example for the mixed cases) and of solid emission for 8 "
+                 "primitive classes, both with bit-exact correspondence to the real construction code; "
+                 "grid-point and end-to-end point-location oracles on the real code",
     "text": "Partial proof + checked correspondence. Proved on the model (Model/BZone.lean, all boxes, "
             "all coordinates incl. ±inf and null boxes, any number of operands): negate, "
             "calc_intersection in all four negation combinations, n-ary intersection fold and "
@@ -21,9 +24,14 @@ MANIFEST = {
             "sound for equal negation flags and proved UNSOUND (concrete witness, replayed on the real "
             "code, listed as known finding) for mixed flags. The model is compared bit-for-bit with "
             "the real calc_intersection/calc_union/get_exterior_bbox on random and adversarial zones. "
-            "NOT covered by a theorem: the surfaces each solid primitive emits and transformed/"
-            "simplified surface insertion (C09's solid-emission half) — only the surface algebra of "
-            "C12 and the CSG logic of C10 are proved.",
+            "Solid-emission half (Model/Solids.lean, Props/C09b.lean): for box, sphere, cylinder, cone, "
+            "ellipsoid, prism, wedge (parallelepiped only for alpha = theta = 0) the emitted "
+            "(surface, sense) list is proved to characterise the mathematical solid away from the "
+            "surfaces, translation commutes with emission, booleans / hollow / sliced solids compose; "
+            "the model reproduces IntersectRegion::build + IntersectSurfaceBuilder + SurfaceSimplifier "
+            "+ LocalSurfaceInserter output bit-for-bit; an end-to-end oracle locates probe points in "
+            "real OrangeParams built through InputBuilder. NOT modelled: rotations of solids "
+            "(SurfaceTransformer), GenPrism/GenTrap, polycones, involutes, daughter placement.",
     "design_ref": "DESIGN.md §6 C09",
     "note": "Coordinates are an arbitrary bounded linear order in the proofs (IEEE doubles without NaN "
             "are one); NaN coordinates are outside the model. ",
@@ -219,9 +227,22 @@ def run(ctx):
         "solid emission (IntersectRegion::build of each primitive, surface insertion with "
         "transforms and de-duplication) is NOT modelled; see C10/C12 for the parts that are",
     ]
+    # ---- second half: solid emission (tools/checks/c09b.py, Props/C09b.lean) ----
+    own = {k: ctx.coverage.get(k) for k in ("obligations", "discharged", "theorems", "checker_cmd")}
+    part = c09b.run_part(ctx)
+    ob2, di2 = ctx.coverage.get("obligations", 0), ctx.coverage.get("discharged", 0)
+    th = dict(own.get("theorems") or {})
+    th.update(ctx.coverage.get("theorems") or {})
+    ctx.coverage.update({
+        "obligations": (own.get("obligations") or 0) + ob2,
+        "discharged": (own.get("discharged") or 0) + di2, "theorems": th,
+        "checker_cmd": (own.get("checker_cmd") or "") + "  &&  " + (ctx.coverage.get("checker_cmd") or ""),
+    })
+    n_solid = sum(part.get(k, 0) for k in ("solids_build_ops", "solids_member_ops",
+                                           "solids_simplify_ops", "solids_e2e_geometries"))
     ctx.coverage.update({
         "explanation": MANIFEST["text"],
-        "evaluations": len(allines), "distinct_nontrivial": len(set(lines)),
+        "evaluations": len(allines) + n_solid, "distinct_nontrivial": len(set(lines)) + n_solid // 2,
         "rule": "random zones (integer-cornered boxes, null, infinite and half-infinite boxes, "
                 "interior null/equal/sub-box, both negation flags) combined by calc_intersection / "
                 "calc_union; non-trivial = binary zone ops; distinct = distinct op lines",
